@@ -9,6 +9,11 @@ for i, a in enumerate(sys.argv):
     if a == '--offset':
         OFFSET = int(sys.argv[i + 1])
 os.makedirs('/tmp/seed_eval', exist_ok=True)
+PAR = 1
+for i, a in enumerate(sys.argv):
+    if a == '--par':
+        PAR = int(sys.argv[i + 1])
+jobs = []
 for out in sorted(glob.glob(BASE + '/C*/_out')):
     pid = out.split('/')[-2]
     for n in (1, 2, 3):
@@ -21,15 +26,26 @@ for out in sorted(glob.glob(BASE + '/C*/_out')):
         first = ' '.join(open(demo).read().split('\n')[:6])
         m = re.search(r'-run\s+[\'"]?([A-Za-z0-9_|^$.*]+)', first)
         pat = m.group(1) if m else 'Demo'
-        pkg = re.search(r'^package\s+(\w+)', open(demo).read(), re.M).group(1)
         d = None
         m2 = re.search(r'Place(?: this file)? in:?\s*([^\s(,]+)', first)
         if m2:
             d = m2.group(1).strip().rstrip('/')
-            d = re.sub(r'^/tmp/wt2?/C\d+/?', '', d) or '.'
+            d = re.sub(r'^/tmp/wt\d?/C\d+/?', '', d) or '.'
         if d is None or d.startswith('/'):
             d = '.'
         extra = '-race' if '-race' in first else ''
-        print(pid, n, d, pat, extra, flush=True)
-        r = subprocess.run(['/verif/tools/eval_seed.sh', out, str(n), d, pat] + ([extra] if extra else []), capture_output=True, text=True)
-        open(res, 'w').write(r.stdout + r.stderr)
+        jobs.append((pid, n, d, pat, extra, out, res))
+
+def run(job):
+    pid, n, d, pat, extra, out, res = job
+    print(pid, n, d, pat, extra, flush=True)
+    r = subprocess.run(['/verif/tools/eval_seed.sh', out, str(n), d, pat] + ([extra] if extra else []), capture_output=True, text=True)
+    open(res, 'w').write(r.stdout + r.stderr)
+
+if PAR <= 1:
+    for j in jobs:
+        run(j)
+else:
+    from concurrent.futures import ThreadPoolExecutor
+    with ThreadPoolExecutor(PAR) as ex:
+        list(ex.map(run, jobs))
